@@ -20,7 +20,7 @@ fn applicable(s: Solver, f: Family) -> bool {
 fn main() {
     let ctx = Ctx::from_args("C09");
     ctx.level("exploration");
-    ctx.rule("E1: six families (1-D Laplacian, arrowhead SPD, symmetric indefinite dominant, nonsymmetric dominant with mixed-sign diagonal, upwind convection-diffusion, scattered dominant) x orders {1,2,3,5,8,13,21,34,60} (quick to 34) x 3 triplet orders x right-hand sides {A x*, 0, 1e6 A x*} x guesses {0, exact solution, fixed non-zero} x tol {1e-12,1e-8,1e-3} x solvers (CG on the SPD families; BiCG itol 1/2, BiCGSTAB, QMR on the strictly diagonally dominant ones), every combination. Oracle: Ok(k) with k <= 6n+30; ||x - x_direct||_inf <= 10 tol ||A^-1||_inf ||b||_2 + 100 cond eps ||x|| with x_direct and the inverse from an independent dense LU; exact guess and zero/zero start => Ok with finite x. Non-trivial: nonsymmetric systems, exact-guess starts, zero right-hand sides, orders >= 13.");
+    ctx.rule("E1: six families (1-D Laplacian, arrowhead SPD, symmetric indefinite dominant, nonsymmetric dominant with mixed-sign diagonal, upwind convection-diffusion, scattered dominant) x orders {1,2,3,5,8,13,21,34,60} (quick to 34) x 7 construction paths of the sparse matrix (3 triplet orders, entry-by-entry inserts, double transpose, overwrite + scale, explicitly stored zeros) x right-hand sides {A x*, 0, 1e6 A x*} x guesses {0, exact solution, fixed non-zero} x tol {1e-12,1e-8,1e-3} x solvers (CG on the SPD families; BiCG itol 1/2, BiCGSTAB, QMR on the strictly diagonally dominant ones), every combination. Oracle: Ok(k) with k <= 6n+30; ||x - x_direct||_inf <= 10 tol ||A^-1||_inf ||b||_2 + 100 cond eps ||x|| with x_direct and the inverse from an independent dense LU; exact guess and zero/zero start => Ok with finite x. Non-trivial: nonsymmetric systems, exact-guess starts, zero right-hand sides, orders >= 13.");
     ctx.assume("all matrix and vector data are small dyadic rationals, so the exact guess has an exactly zero residual in f64");
     ctx.assume("the iteration bound 6n+30 and the accuracy slack are calibrated on the repaired tree (worst observed values are recorded)");
     ctx.threshold("iterations_over_cap", 1.0);
@@ -30,7 +30,7 @@ fn main() {
     let mut cases = vec![];
     for &n in &sizes {
         for f in FAMILIES.iter() {
-            for order in 0..3usize {
+            for order in 0..7usize {
                 for rhs in 0..3usize {
                     for g in 0..3usize {
                         cases.push((n, *f, order, rhs, g));
@@ -40,7 +40,7 @@ fn main() {
         }
     }
     ctx.lattice(
-        &format!("well-posed families: orders {:?} x 6 families x 3 triplet orders x 3 rhs x 3 guesses (x 3 tolerances x applicable solvers inside)", sizes),
+        &format!("well-posed families: orders {:?} x 6 families x 7 construction paths (3 triplet orders, insert by insert, double transpose, overwrite + scale, explicitly stored zeros) x 3 rhs x 3 guesses (x 3 tolerances x applicable solvers inside)", sizes),
         cases.len() as u64,
         |i| format!("{:?}", cases[i as usize]),
         |i, acc| {
@@ -133,7 +133,7 @@ fn main() {
         let l = letters.len() as u64;
         let len = pow(l, noff as u32) * (1u64 << n);
         ctx.lattice(
-            &format!("exhaustive strictly dominant {}x{} (CG on the SPD members): off-diagonals over {:?} x every diagonal sign pattern", n, n, letters),
+            &format!("exhaustive strictly dominant {}x{} (all five solvers on the SPD members): off-diagonals over {:?} x every diagonal sign pattern", n, n, letters),
             len,
             |idx| format!("offdiag#{} signs={:b}", idx >> n, idx & ((1 << n) - 1)),
             |idx, acc| {
@@ -174,10 +174,11 @@ fn main() {
                             if s == Solver::Cg && !spd {
                                 continue;
                             }
-                            // Only CG (on the SPD members) is judged on this lattice: its members meet exact Lanczos
+                            // Only the SPD members are judged on this lattice (all five solvers: there BiCG coincides with
+                            // CG and no breakdown occurs on any member): the other members meet exact Lanczos
                             // breakdowns of BiCG / BiCGSTAB / QMR far too often (5 256 irreducible and 5 800 reducible
                             // failing runs), see DESIGN.md section 6, C09 and the representative known findings below.
-                            if s != Solver::Cg {
+                            if s != Solver::Cg && !spd {
                                 continue;
                             }
                             acc.hit("solver runs");
